@@ -9,9 +9,9 @@
    pitch class of the step + alter; spell_tab kpre kpost rows = table (row, spelling) in the
    canonical (onset, pitch, duration) order, row = (onset, pitch, duration);
    mftc c0 c ct = morph of chroma c if the tonic had chroma ct and the first note chroma c0. *)
-From PV Require Import Lib.Base Gen.C17_PS13 Gen.C17_KeyTab Gen.C17_MidiTab
-  Model.C17_Spelling Model.C17_Voices Model.C17_Key
-  Proofs.C17_lib Proofs.C17_Spelling Proofs.C17_Voices Proofs.C17_VoicesTotal Proofs.C17_Key.
+From PV Require Import Lib.Base Gen.C17_PS13 Gen.C17_KeyTab Gen.C17_MidiTab Gen.C17_VSTab
+  Model.C17_Spelling Model.C17_Chroma Model.C17_Voices Model.C17_Contig Model.C17_Key Model.C17_KeyApi Model.C17_Midi
+  Proofs.C17_lib Proofs.C17_Spelling Proofs.C17_Chroma Proofs.C17_Voices Proofs.C17_VoicesTotal Proofs.C17_Contig Proofs.C17_Key Proofs.C17_KeyApi Proofs.C17_Midi.
 From Coq Require Import Sorting.Permutation.
 #[local] Open Scope Z_scope.
 
@@ -95,6 +95,38 @@ Theorem ps13_order_independent : forall kpre kpost rows rows',
 Proof. exact ps13_order_independent_lemma. Qed.
 Print Assumptions ps13_order_independent.
 
+(* ---- the chroma context windows as the code keeps them (compute_chroma_vector_array: one running
+   vector of twelve counts, +1 at chroma[i + K_post - 1], -1 at chroma[i - K_pre - 1], a copy per note) *)
+
+(* the vector stored for note j holds, for every chroma c, the number of notes of chroma c among the
+   notes max(0, j - K_pre) .. min(n, j + K_post) - 1 -- every array, every K_pre, K_post *)
+Theorem chroma_vectors_are_window_counts : forall kpre kpost cs j c,
+  (forall x, In x cs -> 0 <= x < 12) -> (j < List.length cs)%nat -> 0 <= c < 12 ->
+  cv_get (nth j (chroma_vectors kpre kpost cs) cv_zero) c = ps_count c (ps_window kpre kpost cs j).
+Proof. exact chroma_vectors_window_counts. Qed.
+Print Assumptions chroma_vectors_are_window_counts.
+
+(* a note is counted in its own context (K_post >= 1): what the bound on the accidentals rests on *)
+Theorem chroma_vector_counts_own_note : forall kpre kpost cs j,
+  (forall x, In x cs -> 0 <= x < 12) -> (1 <= kpost)%nat -> (j < List.length cs)%nat ->
+  1 <= cv_get (nth j (chroma_vectors kpre kpost cs) cv_zero) (nth j cs 0).
+Proof. exact own_chroma_counted. Qed.
+Print Assumptions chroma_vector_counts_own_note.
+
+(* ps13 spelled from the running vectors -- the function the correspondence evaluates against
+   estimate_spelling -- is the table all theorems above are about *)
+Theorem ps13_running_context_refines : forall kpre kpost rows,
+  spell_tab_v kpre kpost rows = spell_tab kpre kpost rows.
+Proof. exact spell_tab_v_eq. Qed.
+Print Assumptions ps13_running_context_refines.
+
+(* K_pre = 1, K_post = 2 on six notes: increments stop at the end of the array, decrements start at i = 2 *)
+Theorem chroma_vectors_example :
+  map (fun v => (cv_get v 0, cv_get v 3, cv_get v 7)) (chroma_vectors 1 2 [0; 3; 3; 7; 0; 7])
+  = [(1, 1, 0); (1, 2, 0); (0, 2, 1); (1, 1, 1); (1, 0, 2); (1, 0, 1)].
+Proof. exact chroma_vectors_example_lemma. Qed.
+Print Assumptions chroma_vectors_example.
+
 (* ================================================================== *)
 (* O2  voices (for every oracle, i.e. every behaviour of the VoSA search, and every choice rep of
    the note that represents a chord) *)
@@ -144,6 +176,63 @@ Print Assumptions chord_mode_same_voice.
 Theorem mono_mode_identity_map : forall rp ins, equivs_with rp true ins = map (fun x => (fst x, [fst x])) ins.
 Proof. exact mono_mode_identity_map_lemma. Qed.
 Print Assumptions mono_mode_identity_map.
+
+(* ---- inside the contig-mapping search: pairwise_cost and est_best_connections (the global-minimum policy
+   that decides which stream of a neighbouring contig continues which voice) *)
+
+(* both modes ("prev": rows = cost's rows, "next": the transpose): while the side receiving the assignments
+   (columns) is not larger than the side of the streams (rows), the connections made are a MATCHING -- rows
+   pairwise different, columns pairwise different, all inside the matrix -- that covers EVERY column, and the
+   unassigned streams are exactly the rows without a connection.  All rectangular matrices over Z. *)
+Theorem best_connections_are_a_matching : forall (pm : bool) np nn cost, cost_wf np nn cost ->
+  let nr := if pm then np else nn in
+  let nc := if pm then nn else np in
+  (nc <= nr)%nat ->
+  let r := est_best_connections pm np nn cost in
+  List.length (fst r) = nc /\
+  NoDup (map fst (fst r)) /\ NoDup (map snd (fst r)) /\
+  (forall p, In p (fst r) -> (fst p < nr)%nat /\ (snd p < nc)%nat) /\
+  (forall c, (c < nc)%nat -> In c (map snd (fst r))) /\
+  (forall i, In i (snd r) <-> ((i < nr)%nat /\ ~ In i (map fst (fst r)))).
+Proof. exact est_best_spec. Qed.
+Print Assumptions best_connections_are_a_matching.
+
+(* the forward step as VoSA.estimate_voices makes it (cost = pairwise_cost(voices' last notes, first notes of the
+   next contig), a contig never has more streams than there are voices): every stream of the contig is continued
+   by exactly one voice and no voice takes two -- every note of the contig receives a voice *)
+Theorem forward_connections_cover_the_contig : forall prev nxt, (List.length nxt <= List.length prev)%nat ->
+  let r := est_best_connections true (List.length prev) (List.length nxt) (pairwise_cost prev nxt) in
+  NoDup (map fst (fst r)) /\ NoDup (map snd (fst r)) /\
+  (forall c, (c < List.length nxt)%nat -> In c (map snd (fst r))) /\
+  (forall p, In p (fst r) -> (fst p < List.length prev)%nat /\ (snd p < List.length nxt)%nat).
+Proof. exact forward_connections_cover. Qed.
+Print Assumptions forward_connections_cover_the_contig.
+
+(* the backward step (mode "next" on pairwise_cost(last notes of the previous contig, voices' first notes)) *)
+Theorem backward_connections_cover_the_contig : forall prev nxt, (List.length prev <= List.length nxt)%nat ->
+  let r := est_best_connections false (List.length prev) (List.length nxt) (pairwise_cost prev nxt) in
+  NoDup (map fst (fst r)) /\ NoDup (map snd (fst r)) /\
+  (forall c, (c < List.length prev)%nat -> In c (map snd (fst r))) /\
+  (forall p, In p (fst r) -> (fst p < List.length nxt)%nat /\ (snd p < List.length prev)%nat).
+Proof. exact backward_connections_cover. Qed.
+Print Assumptions backward_connections_cover_the_contig.
+
+(* the size hypothesis is needed: one voice, two streams -- the second round finds everything masked and
+   repeats the connection (0, 0), the second stream stays without a voice *)
+Theorem best_connections_need_enough_rows :
+  est_best_connections true 1 2 [[3; 4]] = ([(0, 0); (0, 0)]%nat, []).
+Proof. exact more_columns_than_rows_repeats. Qed.
+Print Assumptions best_connections_need_enough_rows.
+
+(* three voices / two streams in both modes (ties: first row, first column), and a cost matrix with a sustained
+   note (-MAX_COST) and a voice that was skipped before (MAX_COST) *)
+Theorem best_connections_example :
+  est_best_connections true 3 2 [[5; 1]; [0; 1]; [7; 7]] = ([(1, 0); (0, 1)]%nat, [2%nat]) /\
+  est_best_connections false 2 3 [[5; 0; 7]; [1; 1; 7]] = ([(1, 0); (0, 1)]%nat, [2%nat]) /\
+  pairwise_cost [(1, 60, 0); (2, 72, 0); (3, 50, 1)] [(2, 72, 0); (4, 64, 0)]
+    = [[12; 4]; [- vs_max_cost; 8]; [vs_max_cost; vs_max_cost]].
+Proof. exact best_connections_example_lemma. Qed.
+Print Assumptions best_connections_example.
 
 (* ================================================================== *)
 (* O3  key *)
@@ -240,6 +329,82 @@ Theorem key_transpose_needs_unique_max :
   rot_key 1 0 = 1.
 Proof. exact key_transpose_tie_example. Qed.
 Print Assumptions key_transpose_needs_unique_max.
+
+(* ---- the entry point: estimate_key(note_array[, key_profiles=name]) *)
+
+(* every name of VALID_KEY_PROFILES (reflected from partitura/utils/globals.py) is a name ks_kid maps to one of
+   the three profile sets (finite) ... *)
+Theorem key_profile_names_resolve : forall nm, In nm valid_key_profiles ->
+  exists s, ks_profile_of_name nm = Some s /\ 0 <= s <= 2.
+Proof. exact valid_profiles_resolve. Qed.
+Print Assumptions key_profile_names_resolve.
+
+(* ... hence estimate_key -- without the argument or with any accepted name -- returns, for EVERY note array, one
+   of the 24 valid key names; any other name is refused (ValueError) *)
+Theorem estimate_key_total_on_accepted_names : forall kp ns,
+  (kp = None \/ exists nm, kp = Some nm /\ In nm valid_key_profiles) ->
+  exists name, estimate_key_api kp ns = Some name /\ In name key_names.
+Proof. exact estimate_key_api_total. Qed.
+Print Assumptions estimate_key_total_on_accepted_names.
+
+Theorem estimate_key_refuses_other_names : forall nm ns,
+  ~ In nm valid_key_profiles -> estimate_key_api (Some nm) ns = None.
+Proof. exact estimate_key_api_refuses. Qed.
+Print Assumptions estimate_key_refuses_other_names.
+
+Theorem estimate_key_api_example :
+  let ns := [(57, 4); (60, 2); (64, 2); (69, 4)] in
+  estimate_key_api (Some "tp"%string) ns <> None /\
+  estimate_key_api None ns = estimate_key_api (Some "krumhansl_kessler"%string) ns /\
+  estimate_key_api (Some "major"%string) ns = None.
+Proof. exact key_api_example. Qed.
+Print Assumptions estimate_key_api_example.
+
+(* ================================================================== *)
+(* O4  the MIDI score importer: the path of a pitch through load_score_midi *)
+
+(* estimate_spelling returns one spelling per row IN THE ORDER OF THE ROWS, each the table's entry of its row
+   (the importer pairs them with the notes by position) *)
+Theorem spelling_in_row_order : forall rows,
+  exists out, spelling_global rows = Some out /\
+              Forall2 (fun r sp => In (r, sp) (spell_default rows)) rows out.
+Proof. exact spelling_global_spec. Qed.
+Print Assumptions spelling_in_row_order.
+
+(* assign_group_part_voice gives every (track, channel) key a part in each of the six modes ... *)
+Theorem midi_assign_parts_total : forall mode keys, 0 <= mode <= 5 ->
+  List.length (assign_parts mode keys) = List.length keys /\ Forall (fun p => p <> None) (assign_parts mode keys).
+Proof. exact assign_parts_total. Qed.
+Print Assumptions midi_assign_parts_total.
+
+(* ... and none in any other mode (the bound on the mode is sharp) *)
+Theorem midi_assign_parts_needs_mode : forall mode keys, ~ (0 <= mode <= 5) ->
+  assign_parts mode keys = map (fun _ => None) keys.
+Proof. exact assign_parts_none. Qed.
+Print Assumptions midi_assign_parts_needs_mode.
+
+(* THE IMPORTER CLAUSE.  In each of the six part/voice modes, for every set of (track, channel) groups of notes with
+   pitches 21..108 (any onsets and durations, zero-length notes included): the notes load_score_midi creates are --
+   in the order of the file's note list -- exactly (onset, pitch) of the file's notes, where the pitch is
+   score.Note(step, octave, alter).midi_pitch as partitura computes it for the spelling estimate_spelling (default
+   K_pre, K_post, ONE call on the whole piece) returned at the note's position; and every note is in a part. *)
+Theorem midi_import_contains_file_pitches : forall mode gs, 0 <= mode <= 5 ->
+  (forall g r, In g gs -> In r (snd g) -> 21 <= r_pitch r <= 108) ->
+  exists out, import_notes mode gs = Some out /\
+    map (fun x => snd x) out = map (fun r => (r_onset r, Some (r_pitch r))) (flat_map (fun g => snd g) gs) /\
+    Forall (fun x => fst x <> None) out.
+Proof. exact import_notes_spec. Qed.
+Print Assumptions midi_import_contains_file_pitches.
+
+(* two tracks, channels 0 and 9 on the first: mode 0 puts the first two groups into part 0; the checker accepts the
+   pitches by onset rank [C#4 G#4] [C#4] [E4] (mode 5); mode 6 assigns no part *)
+Theorem midi_import_example :
+  option_map (map (fun x => (fst x, snd x))) (import_notes 0 [((0, 0), [(0, 61, 4); (4, 64, 0)]); ((0, 9), [(0, 68, 2)]); ((1, 0), [(2, 61, 2)])])
+  = Some [(Some 0, (0, Some 61)); (Some 0, (4, Some 64)); (Some 0, (0, Some 68)); (Some 1, (2, Some 61))] /\
+  midi_check (5, [((0, 0), [(0, 61, 4); (4, 64, 0)]); ((0, 9), [(0, 68, 2)]); ((1, 0), [(2, 61, 2)])], [[61; 68]; [61]; [64]]) = true /\
+  assign_parts 6 [(0, 0); (1, 0)] = [None; None].
+Proof. exact import_example. Qed.
+Print Assumptions midi_import_example.
 
 (* ================================================================== *)
 (* the hypotheses are satisfiable / the models evaluate (concrete non-trivial inputs) *)
